@@ -41,18 +41,18 @@ Definition rp_has_endpoint (env : renv) (x : eid) : bool :=
 Definition rp_has_agent (env : renv) (x : eid) : bool := existsb (eid_eqb x) (rn_agents env).
 
 (* the fields of an emitted status report bundle *)
-Record sreport := {
-  sr_pos : N;                      (* the one asserted status item *)
-  sr_reason : N;
-  sr_flags : N;                    (* bundle processing control flags of the report bundle *)
-  sr_src : eid;
-  sr_dst : eid;
-  sr_life : N;
+Record rp_sreport := {
+  rpr_pos : N;                      (* the one asserted status item *)
+  rpr_reason : N;
+  rpr_flags : N;                    (* bundle processing control flags of the report bundle *)
+  rpr_src : eid;
+  rpr_dst : eid;
+  rpr_life : N;
   sr_ref_src : eid;                (* RefBundle *)
   sr_ref_time : N;
   sr_ref_seq : N;
   sr_ref_frag : option (N * N);
-  sr_time : option N }.            (* time of the asserted item, only when requested *)
+  rpr_time : option N }.            (* time of the asserted item, only when requested *)
 
 (* what happens to the bundle in one pass through the Core *)
 Inductive event :=
@@ -70,7 +70,7 @@ Inductive event :=
 | EvReleased                              (* constraints purged after forwarding / delivery *)
 | EvContraindicated.                      (* kept for a later retry *)
 
-Inductive item := IEv (e : event) | IRep (r : sreport).
+Inductive item := IEv (e : event) | IRep (r : rp_sreport).
 
 Record rinput := {
   i_kind : N;               (* 0 received from a CLA, 1 SendBundle (local origin), 2 retried from the store *)
@@ -93,11 +93,11 @@ Definition rp_ssr (env : renv) (rcv : eid) (b : bundle) (now pos reason : N) : l
   if rp_has_endpoint env (p_rpt p) then [] else
   let aa := if eid_eqb rcv DtnNone then rn_node env else rcv in
   if negb (rp_has_endpoint env aa) && negb (eid_eqb aa (rn_node env)) then [] else
-  [IRep {| sr_pos := pos; sr_reason := reason; sr_flags := F_ADMIN; sr_src := aa; sr_dst := p_rpt p;
-           sr_life := RP_LIFETIME;
+  [IRep {| rpr_pos := pos; rpr_reason := reason; rpr_flags := F_ADMIN; rpr_src := aa; rpr_dst := p_rpt p;
+           rpr_life := RP_LIFETIME;
            sr_ref_src := p_src p; sr_ref_time := p_time p; sr_ref_seq := p_seq p;
            sr_ref_frag := if has (p_flags p) F_FRAG then Some (p_off p, p_total p) else None;
-           sr_time := if has (p_flags p) F_TIME then Some now else None |}].
+           rpr_time := if has (p_flags p) F_TIME then Some now else None |}].
 
 (* Core.bundleDeletion *)
 Definition rp_deletion (env : renv) (rcv : eid) (b : bundle) (now reason : N) : list item :=
@@ -188,14 +188,14 @@ Definition rp_process (env : renv) (inp : rinput) : list item :=
 
 Definition rp_events (l : list item) : list event :=
   flat_map (fun i => match i with IEv e => [e] | IRep _ => [] end) l.
-Definition rp_reports (l : list item) : list sreport :=
+Definition rp_reports (l : list item) : list rp_sreport :=
   flat_map (fun i => match i with IRep r => [r] | IEv _ => [] end) l.
 
 (* the bundle a report travels in (Builder: flags = administrative record only, report-to defaults to the
    source, sequence number and payload bytes are free here) *)
-Definition rp_report_bundle (r : sreport) (now seq : N) (payload : list N) : bundle :=
-  {| b_pri := {| p_flags := sr_flags r; p_crc := 0; p_dst := sr_dst r; p_src := sr_src r; p_rpt := sr_src r;
-                 p_time := now; p_seq := seq; p_life := sr_life r; p_off := 0; p_total := 0 |};
+Definition rp_report_bundle (r : rp_sreport) (now seq : N) (payload : list N) : bundle :=
+  {| b_pri := {| p_flags := rpr_flags r; p_crc := 0; p_dst := rpr_dst r; p_src := rpr_src r; p_rpt := rpr_src r;
+                 p_time := now; p_seq := seq; p_life := rpr_life r; p_off := 0; p_total := 0 |};
      b_blocks := [ {| c_num := 1; c_flags := 0; c_crc := 0; c_val := XPayload payload |} ] |}.
 
 (* ------------------------------------------------------------------------------------------
@@ -232,28 +232,28 @@ Definition rp_frag_eqb (a b : option (N * N)) : bool :=
 
 Definition rp_when (c : bool) (code : N) : list N := if c then [code] else [].
 
-Definition rp_check (env : renv) (b : bundle) (fa : rfacts) (r : sreport) : list N :=
+Definition rp_check (env : renv) (b : bundle) (fa : rfacts) (r : rp_sreport) : list N :=
   let p := b_pri b in
   let f := p_flags p in
   (* truthful and requested *)
-  (if sr_pos r =? SP_RECEIVED then
+  (if rpr_pos r =? SP_RECEIVED then
      rp_when (negb (fa_received fa)) RC_UNTRUE_RECEIVED
-     ++ rp_when (negb (if sr_reason r =? RR_UNSUPPORTED then rp_unknown_report_block b
+     ++ rp_when (negb (if rpr_reason r =? RR_UNSUPPORTED then rp_unknown_report_block b
                        else has f F_RECEPTION)) RC_UNREQ_RECEIVED
-   else if sr_pos r =? SP_FORWARDED then
+   else if rpr_pos r =? SP_FORWARDED then
      rp_when (negb (fa_sent_ok fa)) RC_UNTRUE_FORWARDED ++ rp_when (negb (has f F_FORWARD)) RC_UNREQ_FORWARDED
-   else if sr_pos r =? SP_DELIVERED then
+   else if rpr_pos r =? SP_DELIVERED then
      rp_when (negb (fa_handed fa)) RC_UNTRUE_DELIVERED ++ rp_when (negb (has f F_DELIVERY)) RC_UNREQ_DELIVERED
-   else if sr_pos r =? SP_DELETED then
+   else if rpr_pos r =? SP_DELETED then
      rp_when (negb (fa_deleted fa)) RC_UNTRUE_DELETED ++ rp_when (negb (has f F_DELETION)) RC_UNREQ_DELETED
    else [RC_SHAPE_POS])
   (* shape *)
-  ++ rp_when (negb (has (sr_flags r) F_ADMIN) || any_status_request (sr_flags r)) RC_SHAPE_FLAGS
-  ++ rp_when (negb (eid_eqb (sr_dst r) (p_rpt p))) RC_SHAPE_DST
+  ++ rp_when (negb (has (rpr_flags r) F_ADMIN) || any_status_request (rpr_flags r)) RC_SHAPE_FLAGS
+  ++ rp_when (negb (eid_eqb (rpr_dst r) (p_rpt p))) RC_SHAPE_DST
   ++ rp_when (negb (eid_eqb (sr_ref_src r) (p_src p) && (sr_ref_time r =? p_time p) && (sr_ref_seq r =? p_seq p)
                     && rp_frag_eqb (sr_ref_frag r) (if has f F_FRAG then Some (p_off p, p_total p) else None)))
              RC_SHAPE_REF
-  ++ rp_when (negb (Bool.eqb (match sr_time r with Some _ => true | None => false end) (has f F_TIME))) RC_SHAPE_TIME
+  ++ rp_when (negb (Bool.eqb (match rpr_time r with Some _ => true | None => false end) (has f F_TIME))) RC_SHAPE_TIME
   (* no cascade *)
   ++ rp_when (has f F_ADMIN) RC_ABOUT_ADMIN
   ++ rp_when (rp_has_endpoint env (p_rpt p)) RC_TO_SELF.
